@@ -175,3 +175,132 @@ def install(reg):
             9: LoopContract("for var in conflict_vars + other_sorted", last_for, lemmas=[("typing.vertex_sets_of_graph", typing)]),
         },
     ))
+
+
+# ====================================================================== compute_attractors_symbolic: structure (C12, C01)
+def install_structure(reg):
+    """Second contract of compute_attractors_symbolic (`#structure`), verified against the body.  The call-site contract (attractors.py)
+    states what the result MEANS (a system of representatives, their attractor sets) and stays assumed; this one proves the bookkeeping
+    that meaning rests on: which candidates are tested against what, that seeds and sets are paired, in which order they are reported,
+    how the sets are converted, and when the single-candidate shortcut is taken."""
+    from pyvc.contract import HeapParam
+    from pyvc import sdmodel as M
+    from pyvc.externals_aeon import graph_of, TNetObj
+    from .candidates import reduce_space
+    from .attractors import structure_unchanged, RES2, args_of
+    from . import sd_inv as S
+    SD_ = HeapParam("SD")
+    LS, LV, OptLV = M.LS, M.LV, M.OptLV
+    LCV = TList(V.TVS)
+    a_, b_ = z3.Int("a!cs"), z3.Int("b!cs")
+
+    def G_(c):
+        o = c.old.sd if c.old is not None else c.sd
+        n = c.node_id
+        bn = z3.If(T.card(o.space[n]) == T.nvars(S.net(o)), T.EmptyBN, T.PercNetObj(o.net, o.space[n]))
+        return graph_of(bn)
+
+    def NS(c):
+        o = c.old.sd if c.old is not None else c.sd
+        return o.space[c.node_id]
+
+    def RC(c, k):
+        return reduce_space(LS.at(c.candidate_states)[k], NS(c))
+
+    def Mk(c, k):
+        return T.union(RC(c, k), NS(c))
+
+    def same(x, y):
+        return z3.And(V.Sub(x, y), V.Sub(y, x))
+
+    def closure_of(c, k):
+        return V.Fwd(G_(c), V.SubspaceSet(G_(c), RC(c, k)))
+
+    def conv(c, x):
+        o = c.old.sd if c.old is not None else c.sd
+        return V.vset_inter(V.transfer(o.sym, V.vertices_of(x), G_(c)), V.vertices_of(V.SubspaceSet(o.sym, NS(c))))
+
+    def reduced_ok(c, upto):
+        r = c.candidate_states_reduced
+        return z3.And(LS.len(r) == upto, z3.ForAll([a_], z3.Implies(z3.And(0 <= a_, a_ < upto), LS.at(r)[a_] == RC(c, a_))))
+
+    def paired(c, seeds, sets, upto):
+        """every reported seed is a tested candidate (completed with the node's values) and its set is that candidate's forward closure"""
+        return z3.And(LS.len(seeds) == LCV.len(sets), LS.len(seeds) >= 0, LS.len(seeds) <= upto,
+                      z3.ForAll([b_], z3.Implies(z3.And(0 <= b_, b_ < LS.len(seeds)), z3.Exists([a_], z3.And(
+                          0 <= a_, a_ < upto, LS.at(seeds)[b_] == Mk(c, a_), same(LCV.at(sets)[b_], closure_of(c, a_)))))),
+                      # if nothing was dropped so far, the seeds are the candidates in their order
+                      z3.Implies(LS.len(seeds) == upto, z3.ForAll([a_], z3.Implies(z3.And(0 <= a_, a_ < upto), LS.at(seeds)[a_] == Mk(c, a_)))))
+
+    def main_inv(c):
+        return [("reduced_candidates", reduced_ok(c, LS.len(c.candidate_states))),
+                ("iterating_the_reduced_candidates", c.coll == c.candidate_states_reduced),
+                ("seeds_and_sets_paired_in_candidate_order", paired(c, c.seeds, c.sets, c.i)),
+                ("graph_of_the_percolated_network", c.graph_reduced == G_(c)),
+                ("node_space", c.node_space == NS(c)),
+                ("only_percolation_caches_filled", structure_unchanged(c.sd, c.old.sd)),
+                ("inv", S.inv_all(c.sd))]
+
+    def conv_inv(c):
+        sc = c.sets_converted
+        return [("converted_prefix", z3.And(LV.len(sc) == c.i, c.coll == c.sets,
+                                            z3.ForAll([a_], z3.Implies(z3.And(0 <= a_, a_ < c.i), LV.at(sc)[a_] == conv(c, LCV.at(c.sets)[a_]))))),
+                ("seeds_and_sets_paired_in_candidate_order", paired(c, c.seeds, c.sets, LS.len(c.candidate_states))),
+                ("space_symbolic", c.space_symbolic == V.vertices_of(V.SubspaceSet(c.old.sd.sym, NS(c)))),
+                ("graph_of_the_percolated_network", c.graph_reduced == G_(c)),
+                ("only_percolation_caches_filled", structure_unchanged(c.sd, c.old.sd)),
+                ("inv", S.inv_all(c.sd))]
+
+    def childless(c):
+        """the node has no successors in the diagram (an unexpanded node has none)"""
+        o, nn = c.old.sd, c.node_id
+        y_ = z3.Int("y!cs")
+        return z3.Or(z3.Not(o.expanded[nn]), z3.Not(z3.Exists([y_], z3.And(0 <= y_, y_ < o.K, o.edge[nn][y_]))))
+
+    def post(c):
+        r = c.result
+        seeds, osets = RES2.get(r, 0), RES2.get(r, 1)
+        n = LS.len(c.candidate_states)
+        cl = [("all_candidates_kept_means_same_order", z3.Implies(z3.And(z3.Not(OptLV.is_none(osets)), LS.len(seeds) == n), z3.ForAll(
+                  [a_], z3.Implies(z3.And(0 <= a_, a_ < n), LS.at(seeds)[a_] == Mk(c, a_))))),
+              ("every_seed_is_a_candidate_completed_with_the_node_space", z3.ForAll([b_], z3.Implies(z3.And(0 <= b_, b_ < LS.len(seeds)), z3.Exists(
+                  [a_], z3.And(0 <= a_, a_ < n, LS.at(seeds)[b_] == Mk(c, a_)))))),
+              ("shortcut_only_for_the_last_candidate_of_a_childless_node_when_only_seeds_are_wanted", z3.Implies(OptLV.is_none(osets), z3.And(
+                  c.seeds_only, n >= 1, LS.len(seeds) == 1, LS.at(seeds)[0] == Mk(c, n - 1), childless(c)))),
+              ("only_percolation_caches_filled", structure_unchanged(c.sd, c.old.sd)),
+              ("inv", S.inv_all(c.sd))]
+        try:
+            sets = c.local("sets")
+        except (KeyError, AttributeError):
+            return cl
+        cl.insert(2, ("sets_are_the_converted_closures_in_the_order_of_the_seeds", z3.Implies(z3.Not(OptLV.is_none(osets)), z3.And(
+            LV.len(OptLV.val(osets)) == LS.len(seeds), LCV.len(sets) == LS.len(seeds),
+            z3.ForAll([b_], z3.Implies(z3.And(0 <= b_, b_ < LS.len(seeds)), z3.And(
+                LV.at(OptLV.val(osets))[b_] == conv(c, LCV.at(sets)[b_]),
+                z3.Exists([a_], z3.And(0 <= a_, a_ < n, LS.at(seeds)[b_] == Mk(c, a_), same(LCV.at(sets)[b_], closure_of(c, a_)))))))))))
+        return cl
+
+    NAMES = ["all_candidates_kept_means_same_order", "every_seed_is_a_candidate_completed_with_the_node_space",
+             "sets_are_the_converted_closures_in_the_order_of_the_seeds",
+             "shortcut_only_for_the_last_candidate_of_a_childless_node_when_only_seeds_are_wanted", "only_percolation_caches_filled", "inv"]
+    pick = lambda nm: (lambda c: dict(post(c)).get(nm, z3.BoolVal(True)))
+    reg.add(Contract(
+        "biobalm._sd_attractors.attractor_symbolic.compute_attractors_symbolic#structure",
+        params=[("sd", SD_), ("node_id", TInt), ("candidate_states", LS), ("seeds_only", TBool)], defaults={"seeds_only": False},
+        result_type=RES2, properties=("C12", "C01"),
+        requires=[lambda c: S.inv_all(c.sd), lambda c: S.valid(c.sd, c.node_id), lambda c: LS.len(c.candidate_states) >= 0,
+                  lambda c: c.sd.cfg_max_motifs_per_node >= 0],
+        modifies={"sd": ["pbn"]},
+        ensures=[(nm, pick(nm)) for nm in NAMES],
+        axioms=V.AX_VS,
+        local_types={"candidate_states_reduced": LS, "seeds": LS, "sets": LCV, "sets_converted": LV, "child_motifs_reduced": LS,
+                     "node_space": TSpace, "candidate_reduced": TSpace},
+        ann_types={"list[ColoredVertexSet]": LCV, "list[VertexSet]": LV},
+        loops={0: LoopContract("for candidate in candidate_states", lambda c: [
+                   ("reduced_prefix", reduced_ok(c, c.i)), ("node_space", c.node_space == NS(c)),
+                   ("only_percolation_caches_filled", structure_unchanged(c.sd, c.old.sd)), ("inv", S.inv_all(c.sd)),
+                   ("graph_of_the_percolated_network", c.graph_reduced == G_(c))]),
+               1: LoopContract("for i, candidate in enumerate(candidate_states_reduced)", main_inv, havoc_heap={"sd": []}),
+               2: LoopContract("for s in sets", conv_inv)},
+        note="bookkeeping of the exact filtering (which candidate is tested, pairing and order of seeds and sets, conversion, shortcut); the "
+             "meaning of the result (call-site contract) stays assumed"))
